@@ -162,7 +162,7 @@ func initAllow(p string) bool {
 		return true
 	}
 	switch p {
-	case "errors", "io", "encoding/hex", "encoding/base64", "unicode/utf8", "bytes", "sort", "strconv", "io/fs", "internal/oserror", "path", "math", "unicode", "strings", "internal/bytealg", "sync", "internal/itoa":
+	case "errors", "io", "encoding/hex", "encoding/base64", "unicode/utf8", "bytes", "sort", "strconv", "io/fs", "internal/oserror", "path", "math", "unicode", "strings", "internal/bytealg", "sync", "internal/itoa", "html":
 		return true
 	}
 	return false
